@@ -56,6 +56,34 @@ def run(ctx):
                     chk.ob('S1', '%s:stored-%s-is-this-calls' % (F.name, role), good, F.where(), F.name,
                            '%s does not receive the %s parameter of %s' % (fn, role, F.name),
                            how=' <- '.join(origins[0][1]) if origins else '')
+        # each store function touches its own field only: the wrappers call them one after the other, so a store that
+        # also resets the record (directly or through a helper such as setDefaults) wipes what was stored before it
+        def ids_writes(fn_obj, seen=None):
+            seen = seen if seen is not None else set()
+            if fn_obj is None or fn_obj.key in seen:
+                return set()
+            seen.add(fn_obj.key)
+            out = set()
+            for n in fn_obj.body.walk():
+                if n.k == 'BinaryOperator' and n['op'] == '=':
+                    l = strip(n.ch[0])
+                    if l.k == 'MemberExpr' and l.get('record') == IDS_RECORD:
+                        out.add(l['member'])
+            for c in fn_obj.calls():
+                t = prog.func(c.get('callee'), fn_obj.tu) if c.get('callee') else None
+                if t is not None and any((a.get('ct') or '').find(IDS_RECORD) >= 0 for a in c.ch[1:] if a is not None):
+                    out |= ids_writes(t, seen)
+            return out
+        for role, fn in STORE.items():
+            SF = prog.func(fn)
+            if SF is None:
+                continue
+            w = ids_writes(SF) - {'initialized'}
+            chk.ob('S1', 'store-touches-only-its-field[%s]' % role, w == {role}, SF.where(), SF.name,
+                   '%s writes %s of the per-call record (directly or through a helper it hands the record to): the values '
+                   'stored by the other store functions of the same call are lost, e.g. execve(path, argv, NULL) is logged '
+                   'without its path and arguments' % (fn, sorted(w)),
+                   how='writes exactly {%s}' % role)
         # ---- S2 ------------------------------------------------------------------------
         rec = prog.record(IDS_RECORD)
         if rec is None:
